@@ -76,6 +76,9 @@ structure App where
   traits    : Nat                 -- own traits (`_traits`)
   server    : Option Nat
   alloc     : Nat                 -- allocation object id
+  /-- GHOST (not part of `Application`): the entry of the `evicted` dict local to
+      `_find_placements`, kept per app: (server evicted from, placement_expiry at eviction). -/
+  evFrom    : Option (Nat × Option Int) := none
   deriving DecidableEq, Repr, Inhabited
 
 def App.limitAt (a : App) (lvl : Nat) : Option Nat :=
